@@ -146,6 +146,19 @@ Proof.
   - exfalso. apply NN. eapply code_at_in; eauto.
 Qed.
 
+Definition tbr (br : option nat) := mkBlk BTry None 0 0 false br.
+
+Lemma tbr_branch : forall code bs br p l ib, ~ In INil code ->
+  code_at code (compile_branch (tbr br :: bs) p l ib) p ->
+  nth_error code p = Some ILeaveTry /\ (br = None -> code_at code (compile_branch bs (p + 1) l ib) (p + 1)).
+Proof.
+  intros code bs br p l ib NN H. destruct br as [j|].
+  - destruct (compile_branch_breaking_head bs j p l ib) as [E|[r E]]; unfold tbr in H; rewrite E in H.
+    + exfalso. apply NN. eapply code_at_in; eauto.
+    + split; [eapply code_at_head; eauto|discriminate].
+  - destruct (tblk_branch code bs p l ib NN H) as [A B]. split; auto.
+Qed.
+
 Definition fframe (ret : option nat) (exc : option val) (il sp : nat) : frame := mkFrame None None ret exc il sp false.
 
 (* [based so s fr tr] : s is reached from the outer state so, with one extra try frame fr *)
@@ -260,6 +273,10 @@ Hypothesis Hfin : code_at code ([IEnterFinally] ++ cf ++ [ILeaveFinally]) pf.
 Variables (presf gf : bool) (sc2 sc3 : list bool) (tf : list event) (F : compl).
 Hypothesis HF : forall sF, pc sF = pf + 1 -> script sF = sc2 ->
   arrives code (tblk :: bs) sF (pf + 1 + length cf) presf gf F tf sc3.
+(* the try and catch blocks are compiled under a try block that may carry 'breaking' (then the finally list
+   has a direct break/continue and never completes normally) *)
+Variable br : option nat.
+Hypothesis HBR : br <> None -> is_normal F = false.
 
 Lemma leave_finally_step : forall s ret exc il sp T,
   pc s = pf + 1 + length cf -> trys s = fframe ret exc il sp :: T ->
@@ -279,7 +296,7 @@ Qed.
 
 Lemma try_tail_fin : forall so sR cp endR presR gR pres g C1 t1 tr0,
   based code so sR (mkFrame cp (Some (pf + 1)) None None (length (iters so)) (length (stk so)) false) tr0 pres ->
-  arrives code (tblk :: bs) sR endR presR gR C1 t1 sc2 ->
+  arrives code (tbr br :: bs) sR endR presR gR C1 t1 sc2 ->
   (forall st', pc st' = endR -> steps code st' (set_pc st' pf)) ->
   (is_throw C1 = true -> cp = None) ->
   is_unc C1 = false ->
@@ -338,7 +355,7 @@ Proof.
       apply BF. intro H. apply andb_true_iff in H. tauto.
   - (* break out of the region: leaveTry runs the finally block, then resumes the exit sequence *)
     destruct HR as (s' & S1 & (A1 & A2 & A3 & A4 & A5) & K1 & P1 & R1).
-    apply tblk_branch in P1; auto. destruct P1 as [HL HC].
+    apply tbr_branch in P1; auto. destruct P1 as [HL HC].
     set (sF := set_trys (set_stk (set_pc s' (pf + 1)) (keep sp (stk s'))) (fframe (Some (S (pc s'))) None il sp :: trys so)).
     assert (E1 : vm_step code s' = Running sF).
     { unfold vm_step. rewrite HL, A1, Bt. reflexivity. }
@@ -357,13 +374,13 @@ Proof.
       split. { eapply steps_trans; [exact X1|]. apply steps_one. exact E2. }
       split. { unfold bal. simpl. repeat split; auto. rewrite X6, <- app_assoc. reflexivity. }
       split; [simpl; assumption|].
-      split. { simpl. replace (S (pc s')) with (pc s' + 1) by lia. exact HC. }
+      split. { simpl. replace (S (pc s')) with (pc s' + 1) by lia. apply HC. destruct br as [jj|]; [exfalso; assert (X : true = false) by (apply HBR; discriminate); discriminate X|reflexivity]. }
       simpl. intro. rewrite X9; auto. simpl. rewrite R1, Br; auto.
     + rewrite app_assoc. apply (FIN sF (Some (S (pc s'))) None (tr0 ++ t1)); auto.
       apply BF. intro H. apply andb_true_iff in H. tauto.
   - (* continue: same *)
     destruct HR as (s' & S1 & (A1 & A2 & A3 & A4 & A5) & K1 & P1 & R1).
-    apply tblk_branch in P1; auto. destruct P1 as [HL HC].
+    apply tbr_branch in P1; auto. destruct P1 as [HL HC].
     set (sF := set_trys (set_stk (set_pc s' (pf + 1)) (keep sp (stk s'))) (fframe (Some (S (pc s'))) None il sp :: trys so)).
     assert (E1 : vm_step code s' = Running sF).
     { unfold vm_step. rewrite HL, A1, Bt. reflexivity. }
@@ -382,14 +399,14 @@ Proof.
       split. { eapply steps_trans; [exact X1|]. apply steps_one. exact E2. }
       split. { unfold bal. simpl. repeat split; auto. rewrite X6, <- app_assoc. reflexivity. }
       split; [simpl; assumption|].
-      split. { simpl. replace (S (pc s')) with (pc s' + 1) by lia. exact HC. }
+      split. { simpl. replace (S (pc s')) with (pc s' + 1) by lia. apply HC. destruct br as [jj|]; [exfalso; assert (X : true = false) by (apply HBR; discriminate); discriminate X|reflexivity]. }
       simpl. intro. rewrite X9; auto. simpl. rewrite R1, Br; auto.
     + rewrite app_assoc. apply (FIN sF (Some (S (pc s'))) None (tr0 ++ t1)); auto.
       apply BF. intro H. apply andb_true_iff in H. tauto.
   - (* return: saveResult; leaveTry; (finally); loadResult *)
     destruct HR as (s' & v' & S1 & (A1 & A2 & A3 & A4 & A5) & K1 & P1 & R1 & PF).
     assert (PRF : pres = false). { destruct pres; auto. rewrite Hp1 in PF; auto. }
-    assert (ERC : ret_code (tblk :: bs) ++ [IRet] = [ISaveResult; ILeaveTry; ILoadResult] ++ (ret_code bs ++ [IRet]))
+    assert (ERC : ret_code (tbr br :: bs) ++ [IRet] = [ISaveResult; ILeaveTry; ILoadResult] ++ (ret_code bs ++ [IRet]))
       by reflexivity.
     rewrite ERC in P1. apply code_at_app in P1. destruct P1 as [P1 P2]. simpl in P2.
     pose proof (code_at_head _ _ _ _ P1) as I1. apply code_at_tail in P1.
